@@ -13,8 +13,8 @@ TRUSTED_COMMON = [
 ]
 
 
-def gen_cases(spec, seed, n, outdir, replay=None, binary="purecases"):
-    cmd = [os.path.join(D.BIN, binary), spec["gen"], "-seed", str(seed), "-n", str(n), "-out", outdir]
+def gen_cases(spec, seed, n, outdir, replay=None):
+    cmd = [os.path.join(D.BIN, spec.get("binary", "purecases")), spec["gen"], "-seed", str(seed), "-n", str(n), "-out", outdir]
     if replay:
         cmd += ["-replay", replay]
     else:
@@ -73,7 +73,7 @@ def check(spec, tier, seed, replay=None):
     notes, proof_broken = [], []
 
     # 1. rebuild from the working tree
-    ok, out = D.build_harness(spec.get("binaries", ("purecases",)))
+    ok, out = D.build_harness((spec.get("binary", "purecases"),))
     if not ok:
         D.log("harness build failed:\n" + out[-3000:])
         path = D.write_replay(pid, "obligation", seed, None, extra=dict(what="harness does not build against /repo", log=out[-3000:]))
